@@ -484,12 +484,12 @@ def property_oracle(c, o):
     if dec.get("panic"):
         m0 = c["methods"][0]
         if c["codec"] == "jsonrpc" and not m0["missing"] and not m0["variadic"] and len(c["args"]) > len(m0["params"]) \
-           and "nil pointer" in dec["panic"]:
+           and "nil pointer" in dec.get("panic", ""):
             out.append(("jsonrpc-service-decode-panics-on-more-arguments-than-parameters",
                         "JSON-RPC service codec Decode panics (%s) when the request has more arguments (%d) than the method has parameters (%d)"
-                        % (dec["panic"][:80], len(c["args"]), len(m0["params"]))))
+                        % (dec.get("panic", "")[:80], len(c["args"]), len(m0["params"]))))
         else:
-            out.append((c["codec"] + "-service-decode-panics:" + norm(dec["panic"]), "service codec Decode panicked on the client codec's request: " + dec["panic"][:200]))
+            out.append((c["codec"] + "-service-decode-panics:" + norm(dec.get("panic", "")), "service codec Decode panicked on the client codec's request: " + dec.get("panic", "")[:200]))
     elif want_m == -1:
         if not dec.get("failed"):
             out.append(("no-method-accepted", "no method and no missing-method handler, but Decode returned no error"))
@@ -498,7 +498,7 @@ def property_oracle(c, o):
             # a decode error is legitimate only when some argument does not fit its parameter type (plain io round trip fails too)
             if not any(e.get("err") for e in (o.get("or_args") or [])) and \
                not any(e["v"].startswith("ERR") for e in (o.get("or_hdrs") or [])):
-                out.append(("service-decode-error:" + norm(dec["err"]), "service codec Decode failed on the client codec's request: " + dec["err"][:200]))
+                out.append(("service-decode-error:" + norm(dec.get("err", "")), "service codec Decode failed on the client codec's request: " + dec.get("err", "")[:200]))
         else:
             if dec["name"] != c["call"]:
                 out.append(("method-name-differs", "decoded method name %s, called %s" % (dec["name"], c["call"])))
@@ -524,7 +524,8 @@ def property_oracle(c, o):
                 out.append(("argument-count-differs", "decoded %d arguments, %d were passed" % (len(dec.get("args") or []), len(c["args"]))))
             else:
                 for i, (d, orc) in enumerate(zip(dec.get("eq") or [], o.get("or_args") or [])):
-                    if d and not orc.get("eq") and not orc.get("err"):
+                    # the argument arrived different although the same value ALONE round-trips into the type
+                    if d and solo_ok(orc):
                         ptrs = [set(re.findall(r"\(ptr (\d+)\)", sx)) for sx in (o.get("args_sx") or [])]
                         shared = any(ptrs[i] & ptrs[j] for j in range(len(ptrs)) if j != i) if i < len(ptrs) else False
                         key = "pointer-shared-between-arguments-of-different-static-types-decoded-wrong" if shared else "argument-value-differs"
@@ -545,12 +546,12 @@ def property_oracle(c, o):
         out.append(("jsonrpc-id-not-echoed", "response id %s for request id %s" % (o["jresp"].get("id"), o["jreq"].get("id"))))
     if cd.get("panic"):
         nrt = 1 if c.get("rt_default") else len(c["rtypes"] or [])
-        if c["codec"] == "jsonrpc" and nrt >= 2 and len(res["values"]) > nrt and "index out of range" in cd["panic"]:
+        if c["codec"] == "jsonrpc" and nrt >= 2 and len(res["values"]) > nrt and "index out of range" in cd.get("panic", ""):
             out.append(("jsonrpc-client-decode-panics-on-more-results-than-declared",
                         "JSON-RPC client codec Decode panics (%s) when the response carries more results (%d) than the caller declared (%d)"
-                        % (cd["panic"][:80], len(res["values"]), nrt)))
+                        % (cd.get("panic", "")[:80], len(res["values"]), nrt)))
         else:
-            out.append((c["codec"] + "-client-decode-panics:" + norm(cd["panic"]), "client codec Decode panicked on the service codec's response: " + cd["panic"][:200]))
+            out.append((c["codec"] + "-client-decode-panics:" + norm(cd.get("panic", "")), "client codec Decode panicked on the service codec's response: " + cd.get("panic", "")[:200]))
     elif res["kind"] in ("error", "panic"):
         got = cd.get("err", "")
         if any(e["v"].startswith("ERR") for e in (o.get("or_rhdrs") or [])):
@@ -567,17 +568,27 @@ def property_oracle(c, o):
         if not cd.get("failed"):
             pass
         else:
-            out.append(("error-value-result-becomes-error", "a result that is an error VALUE is delivered as a failed call (%r)" % cd["err"][:60]))
+            out.append(("error-value-result-becomes-error", "a result that is an error VALUE is delivered as a failed call (%r)" % cd.get("err", "")[:60]))
     else:
         if cd.get("failed"):
             if not any(e.get("err") for e in (o.get("or_res") or [])) and \
                not any(e["v"].startswith("ERR") for e in (o.get("or_rhdrs") or [])):
-                out.append(("client-decode-error:" + norm(cd["err"]), "client codec Decode failed on the service codec's response: " + cd["err"][:200]))
+                out.append(("client-decode-error:" + norm(cd.get("err", "")), "client codec Decode failed on the service codec's response: " + cd.get("err", "")[:200]))
         else:
             for i, (d, orc) in enumerate(zip(cd.get("eq") or [], o.get("or_res") or [])):
-                if d and not orc.get("eq") and not orc.get("err"):
-                    out.append(("result-value-differs", "result %d: %s" % (i, d[:160])))
+                if d and solo_ok(orc):
+                    ptrs = [set(re.findall(r"\(ptr (\d+)\)", sx)) for sx in (o.get("res_sx") or [])]
+                    shared = any(ptrs[i] & ptrs[j] for j in range(len(ptrs)) if j != i) if i < len(ptrs) else False
+                    key = "pointer-shared-between-results-of-different-static-types-decoded-wrong" if shared else "result-value-differs"
+                    out.append((key, "result %d: %s (the plain io round trip of this result alone is equal)" % (i, d[:160])))
     return out
+
+
+def solo_ok(orc):
+    """does this value, on its own, round-trip into the expected type equal to itself (C01 for the single value)?"""
+    if "solo" in orc or "solo_err" in orc:
+        return not orc.get("solo_eq") and not orc.get("solo_err")
+    return not orc.get("eq") and not orc.get("err")
 
 
 def go_text(b):
